@@ -202,6 +202,12 @@ Theorem C16_eventually_answered_or_connection_down :
          \/ (In id (map fst (c_dropped (st m))) /\ conn_up (st m) = false)).
 Proof. exact eventually_answered_or_down. Qed.
 
+(* The queue of completed calls waiting for the send loop is unbounded (generated from the field
+   definition of RPCServerConnection._completed): handing over a completed call never fails, however
+   many calls of one connection complete while the send loop waits in drain(). *)
+Theorem C16_completed_queue_never_full : forall c : conn, queue_full c = false.
+Proof. exact completed_queue_unbounded. Qed.
+
 (* Two facts the liveness argument rests on, for arbitrary finite histories: a reply object, once
    produced, is never destroyed (it only moves queue -> wire or queue -> dropped), and replies
    wait in the queue only while a drain is pending. *)
